@@ -339,6 +339,11 @@ impl Report {
             self.assumptions.push(a.to_string());
         }
     }
+    pub fn note_once(&mut self, n: &str) {
+        if self.notes.len() < 20 && !self.notes.iter().any(|x| x == n) {
+            self.notes.push(n.to_string());
+        }
+    }
     pub fn count(&mut self, name: &str, n: u64) {
         *self.counters.entry(name.to_string()).or_insert(0) += n;
     }
